@@ -70,7 +70,12 @@ def build(tier, seed):
             return c
         mk2.__name__ = mk.__name__
         return mk2
-    tasks = [a_task(PROP, _w(links.find_in_list)), a_task(PROP, _w(links.project_find_tail)), a_task(PROP, _w(links.convert_link_lookup)), link_re_task(),
+    def _incl():
+        from contracts import plumbing
+        from bounded import c09
+        return plumbing.sourcefile_gets_incl_src(PROP, lambda: c09.site_search(shape_names=("constructors local types and file links",), options=[c09.OPTIONS[1]]))
+    tasks = [Task(f"{PROP}.S.incl_src", PROP, "Project._fortran_file", _incl),
+             a_task(PROP, _w(links.find_in_list)), a_task(PROP, _w(links.project_find_tail)), a_task(PROP, _w(links.convert_link_lookup)), link_re_task(),
              Task(f"{PROP}.S.kind_tables", PROP, "LINK_TYPES / SUBLINK_TYPES", lambda: links.kind_tables(PROP)), bounded_task(), pages_task(),
              Task(f"{PROP}.S.static_pages", PROP, "PageNode.__init__", lambda: __import__("contracts.pages", fromlist=["x"]).convert_path_obligation(PROP))]
     meta = {
